@@ -9,6 +9,7 @@ import (
 	"unicode/utf8"
 
 	"golang.org/x/tools/go/ssa"
+	"gosym/smt"
 	"gosym/term"
 )
 
@@ -25,6 +26,9 @@ func (fr *frame) unop(instr *ssa.UnOp, x Value) Value {
 	}
 	switch instr.Op {
 	case token.MUL: // load
+		if sp, isSym := x.(*SymElemPtr); isSym {
+			return sp.load()
+		}
 		p := fr.ptr(x)
 		return copyVal(*p)
 	case token.ARROW:
@@ -538,14 +542,18 @@ func (fr *frame) slice(instr *ssa.Slice, x, lo, hi, max Value) Value {
 	panic("unreachable")
 }
 
-const maxAllocElems = 1 << 40
+var stdSizes = types.SizesFor("gc", "amd64")
 
 func (fr *frame) makeSlice(instr *ssa.MakeSlice) Value {
 	m := fr.m
 	ln := fr.toInt64(fr.get(instr.Len), instr.Len.Type())
 	cp := fr.toInt64(fr.get(instr.Cap), instr.Cap.Type())
-	n, c := fr.checkedAlloc(ln, cp, "makeslice")
 	tElt := instr.Type().Underlying().(*types.Slice).Elem()
+	esz := stdSizes.Sizeof(tElt)
+	if esz < 1 {
+		esz = 1
+	}
+	n, c := fr.checkedAlloc(ln, cp, esz, "makeslice")
 	return m.newSlice(tElt, n, c)
 }
 
@@ -568,16 +576,25 @@ func (m *Machine) newSlice(tElt types.Type, n, c int) []Value {
 
 // checkedAlloc validates a symbolic (len, cap) pair the way the Go runtime does, and
 // additionally reports allocations above the harness's budget as outcome "alloc".
-func (fr *frame) checkedAlloc(ln, cp *term.Term, what string) (int, int) {
+func (fr *frame) checkedAlloc(ln, cp *term.Term, elemSize int64, what string) (int, int) {
 	m := fr.m
+	// the Go runtime panics for negative sizes and for sizes above maxAlloc (2^48 bytes)
+	maxElems := int64(1<<47) / elemSize
 	bad := term.Or(term.Cmp(term.OSlt, ln, term.Const(64, 0)),
-		term.Or(term.Cmp(term.OSlt, cp, ln), term.Cmp(term.OSlt, term.Const(64, maxAllocElems), cp)))
+		term.Or(term.Cmp(term.OSlt, cp, ln), term.Cmp(term.OSlt, term.Const(64, uint64(maxElems)), cp)))
 	if m.Decide(bad) {
 		fr.tpanic("makeslice", "%s: len/cap out of range", what)
 	}
-	over := term.Cmp(term.OSlt, term.Const(64, uint64(m.allocBudget)), cp)
+	budgetElems := m.allocBudget / elemSize
+	over := term.Cmp(term.OSlt, term.Const(64, uint64(budgetElems)), cp)
 	if m.Decide(over) {
-		panic(targetPanic{v: Iface{T: types.Typ[types.String], V: "allocation of more than the budgeted " + fmt.Sprint(m.allocBudget) + " elements"}, kind: "alloc", pos: m.posStr(fr.curPos), fn: fr.fn.String()})
+		// prefer a moderately sized witness so that the native replay stays cheap
+		modest := term.Cmp(term.OSle, cp, term.Const(64, uint64((int64(1)<<30)/elemSize)))
+		if r, mod := m.query(modest); r == smt.Sat {
+			m.Solver.Assert(modest)
+			m.setModel(mod)
+		}
+		panic(targetPanic{v: Iface{T: types.Typ[types.String], V: "allocation of more than the budgeted " + fmt.Sprint(m.allocBudget) + " bytes"}, kind: "alloc", pos: m.posStr(fr.curPos), fn: fr.fn.String()})
 	}
 	n := int(m.Concretize(ln, what+" len at "+m.posStr(fr.curPos)))
 	c := int(m.Concretize(cp, what+" cap at "+m.posStr(fr.curPos)))
